@@ -181,10 +181,9 @@ pub fn run() {
                 (Some(a), Some(b)) if a != b => {
                     let sf = nodes[a].ask("snapfile");
                     let w: Vec<&str> = sf.split_whitespace().collect();
-                    if w.len() == 4 && w[0] == "snapfile" && w[2].parse::<usize>().unwrap_or(0) < joiner_next {
-                        // the joiner already holds entries beyond this snapshot: it is not behind, no leader sends it
-                        "install notbehind".to_string()
-                    } else if w.len() == 4 && w[0] == "snapfile" {
+                    if w.len() == 4 && w[0] == "snapfile" {
+                        // also when the joiner's log is longer than the snapshot (delete_through = Some): raft keeps the
+                        // snapshot's index as its last log index and the leader sends the entries after it again
                         joiner_next = w[2].parse::<usize>().unwrap_or(0);
                         format!("install {}", nodes[b].ask(&format!("install {} {} {}", w[1], w[2], w[3])))
                     } else {
